@@ -284,7 +284,7 @@ func (e *Env) Run(args []string, environ []string, stdin io.Reader, stdout io.Wr
 			// planned to die after that many lines but stdin ended exactly there
 			exit = fault.Exit
 		}
-		if fault != nil && fault.AtExit && exit == 0 {
+		if fault != nil && fault.AtExit {
 			exit = fault.Exit
 		}
 	}()
